@@ -30,6 +30,10 @@ def main():
     out = tempfile.mktemp(suffix=".junit.xml", dir="/tmp")
     env = dict(os.environ)
     env.pop("QUIMB_VERIF", None)
+    # keep BLAS single-threaded per xdist worker (does not change results;
+    # avoids oversubscribing the machine with workers x cores threads)
+    env.setdefault("OPENBLAS_NUM_THREADS", "1")
+    env.setdefault("MKL_NUM_THREADS", "1")
     if src != "/repo":
         env["PYTHONPATH"] = src
     cmd = ["/venv/bin/python", "-m", "pytest", "-q", "-p", "no:cacheprovider", "--timeout=900", "--continue-on-collection-errors", "-n", n, "--junitxml=" + out] + args
